@@ -119,6 +119,9 @@ pub fn batch_stream(run: &mut Run, rng: &mut Rng, n: usize) {
         let mut last = 0;
         for c in cuts.iter().chain(std::iter::once(&lines.len())) {
             let mut bytes = join_lines(&lines[last..*c]);
+            // one file in twelve holds a line that is not valid UTF-8 with well-formed lines after it (also through --stdin): the
+            // program prints what the library prints and then reports the error — it does not crash
+            if rng.chance(1, 12) { bytes.extend_from_slice(b"\xff\xfe;1;2;0.5;x;\nlater;1;2;0.5;x;\n"); }
             if rng.chance(1, 5) && !bytes.is_empty() { bytes.pop(); } // no final newline
             paths.push(tmp_file(&bytes));
             last = *c;
